@@ -222,6 +222,25 @@ def twins(seed):
     return out
 
 
+def giant(seed):
+    """One axis with thousands of members (beyond float / word / cache thresholds nobody would list), tiny or
+    moderate lattices: 3200 x 3 and transposed; 150 x 3100 with ~150 concepts (for the generators)."""
+    rng = random.Random(seed * 7 + 11)
+    n = 3200
+    rows = [[1 + (i % 3)] + ([3] if i % 5 == 0 else []) for i in range(n)]
+    t = Table(n, 3, rows, 'giant3200x3')
+    cols = [[i + 1 for i in range(n) if j in set(rows[i])] for j in range(1, 4)]
+    return [t, Table(3, n, cols, 'giant3x3200')]
+
+
+def giant_gen(seed):
+    m = 3100
+    rows = [[1 + (i * 20 + k) % m for k in range(20)] + [m - (i % 150)] for i in range(150)]
+    t = Table(150, m, rows, 'giant150x3100')
+    cols = [[i + 1 for i in range(150) if j in set(t.rows[i])] for j in range(1, m + 1)]
+    return [t, Table(m, 150, cols, 'giant3100x150')]
+
+
 def biglat(seed, big=False):
     """Lattices of several hundred to a thousand concepts with wide levels (> 128 / > 256 members)."""
     rng = random.Random(seed * 101 + 9)
@@ -254,6 +273,8 @@ def widesquare(seed, big=False):
 
 def boundary_positions(n):
     pos = {1, 2, n - 1, n}
+    if n > 1500:
+        return list(range(1, n + 1))      # giant axes: every singleton (thresholds there cannot be guessed)
     for bnd in (30, 31, 32, 33, 34, 35, 59, 60, 61, 62, 63, 64, 65, 66, 126, 127, 128, 129, 130, 192, 193, 256, 257):
         pos.add(bnd)
     return sorted(p for p in pos if 1 <= p <= n)
@@ -264,9 +285,10 @@ def wide_subsets(n, rng, count=12):
     full = list(range(1, n + 1))
     out = [[], full]
     bp = boundary_positions(n)
-    for p in bp:
+    for k, p in enumerate(bp):
         out.append([p])
-        out.append([q for q in full if q != p])
+        if n <= 1500 or k % 400 == 7:
+            out.append([q for q in full if q != p])
     for _ in range(count):
         dens = rng.choice((0.05, 0.5, 0.9, 0.97))
         out.append([q for q in full if rng.random() < dens] or [rng.randint(1, n)])
